@@ -227,3 +227,6 @@ impl<V: WriteTomlValue> WriteTomlValue for &V {
         (*self).write_toml_value(writer)
     }
 }
+
+#[cfg(kani)]
+include!(concat!(env!("TOML_VERIF_KANI"), "/toml_write/value.rs"));
